@@ -328,3 +328,22 @@ Definition skel_scatter_add_v (uf : bool) (dim : Z) (idx src : list Z) : skel :=
   if uf then skel_scatter_src dim idx src else skel_scatter_add dim.
 Definition skel_scatter_reduce_v (uf : bool) (s : list Z) (dim : Z) (idx src : list Z) (include_self : bool) : skel :=
   ((if uf && negb (zlen s =? 0) then (skel_unsq0 idx ++ skel_unsq0 src)%list else []) ++ skel_scatter_reduce s dim include_self)%list.
+
+(* proposed_fixes/ready/C08_17: scatter.src / scatter.value / scatter_add on a 0-d self: Reshape(self, [-1]), ScatterElements, Squeeze *)
+Definition scalar_detour (sf : bool) (s : list Z) (f : list Z -> option (list Z)) : option (list Z) :=
+  if sf && (zlen s =? 0) then obind (reshape_shape s [-1] false) (fun s1 => option_map squeeze_all (f s1)) else f s.
+Definition aten_scatter_src_shape_v (sf : bool) (s : list Z) (dim : Z) (idx src : list Z) : option (list Z) :=
+  scalar_detour sf s (fun s1 => aten_scatter_src_shape s1 dim idx src).
+Definition aten_scatter_value_shape_v (sf : bool) (s : list Z) (dim : Z) (idx : list Z) : option (list Z) :=
+  scalar_detour sf s (fun s1 => aten_scatter_value_shape s1 dim idx).
+Definition skel_detour (sf : bool) (s : list Z) (front last : skel) : skel :=
+  if sf && (zlen s =? 0) then (front ++ [("Reshape", [[0]; [-1]])] ++ last ++ [("Squeeze", [])])%list else (front ++ last)%list.
+Definition skel_scatter_src_v (sf : bool) (s : list Z) (dim : Z) (idx src : list Z) : skel :=
+  skel_detour sf s (skel_unsq0 idx ++ skel_unsq0 src)%list [("ScatterElements", [[dim]])].
+Definition skel_scatter_value_v (sf : bool) (s : list Z) (dim : Z) (idx : list Z) : skel :=
+  skel_detour sf s (skel_unsq0 idx ++ [("Shape", [[0]]); ("ConstantOfShape", [])])%list [("ScatterElements", [[dim]])].
+(* scatter_add: uf (C08_14, already applied upstream) must be on for the detour to exist *)
+Definition aten_scatter_add_shape_v2 (uf sf : bool) (s : list Z) (dim : Z) (idx src : list Z) : option (list Z) :=
+  if uf then aten_scatter_src_shape_v sf s dim idx src else aten_scatter_add_shape s dim idx src.
+Definition skel_scatter_add_v2 (uf sf : bool) (s : list Z) (dim : Z) (idx src : list Z) : skel :=
+  if uf then skel_scatter_src_v sf s dim idx src else skel_scatter_add dim.
